@@ -257,7 +257,12 @@ class DiffXReader(object):
                         # or file -> file), or we went back up a level
                         # (file -> change). Pop off the last encoding from
                         # the stack before we push a new encoding onto it.
-                        encodings.pop()
+                        #
+                        # When going back up (file -> change), both the
+                        # file's and the previous change's encodings must be
+                        # popped.
+                        for i in range(prev_container_level - level + 1):
+                            encodings.pop()
 
                 # Push a newly-specified encoding (if in the options) or the
                 # parent section's encoding on the stack.
